@@ -157,6 +157,7 @@ def run(ctx, rep):
             cs = _calls(b, lambda n, t: n == strip_generics(CC + pre + m))
             rep.add("B1", "wrapper:%s%s" % (pre, m), len(cs) == 1, "%s:%s" % (b.file, b.line), "trait method forwards to the context's %s%s exactly once" % (pre, m))
     b3(F, rep)
+    b4(F, rep)
     # ---- B2 ---------------------------------------------------------------------------------------
     for en in ("CodecCorrection", "CodecMisprediction"):
         a = F.adts.get("preflate_rs::statistical_codec::" + en)
@@ -183,6 +184,105 @@ def run(ctx, rep):
         rep.add("B2", "value/mantissa arrays same shape", ft.get("correction") == ft.get("correction_bits") and ft.get("default_encoding") == ft.get("default_encoding_nbits"), "", str(ft))
     else:
         rep.missing("B2", "PredictionCabacContext")
+
+
+def b4(F, rep):
+    """The value arithmetic of the two primitive pairs, on canonical descriptors (⚠ enumerated shapes, fail closed):
+    exp coding  — writer: unary(bit_length(v)); for bit_length >= 2 the low bits of v as mantissa of bit_length-1 bits;
+                  reader: 0 -> 0, 1 -> 1, n -> mantissa | 1 << (n-1);
+    fixed width — writer emits bit i of v for i = width-1 down to 0, reader shifts the accumulator left before it ors
+                  each bit in, for width iterations."""
+    BL = r"bit_helper::bit_length\(arg<u32>\)"
+    w = F.body(CC + "write_exp_encoded")
+    where = "%s:%s" % (w.file, w.line)
+    pn = _calls(w, lambda n, t: n.endswith("::put_n_bits"))
+    pu = _calls(w, lambda n, t: n.endswith("::put_unary_encoded"))
+    ok_u = len(pu) == 1 and re.match("^" + BL + "$", flow.describe(w, pu[0][2]["args"][1])) is not None
+    rep.add("B4", "exp-writer:unary=bit_length", ok_u, where, "put_unary_encoded(%s)" % (flow.describe(w, pu[0][2]["args"][1]) if pu else None))
+    ok_m = False
+    why = "no single put_n_bits"
+    if len(pn) == 1:
+        bb, _, t = pn[0]
+        val, cnt = flow.describe(w, t["args"][1]), flow.describe(w, t["args"][2])
+        shapes = [r"^(into\()?BitAnd\(arg<u32>, Sub\(Shl\(K1, %s\)(\.0)?, K1\)(\.0)?\)\)?$" % BL,
+                  r"^(into\()?BitAnd\(arg<u32>, Sub\(Shl\(K1, Sub\(%s, K1\)(\.0)?\)(\.0)?, K1\)(\.0)?\)\)?$" % BL,
+                  r"^(into\()?arg<u32>\)?$"]
+        good_val = any(re.match(s, val) for s in shapes)
+        good_cnt = re.match(r"^Sub\(%s, K1\)(\.0)?$" % BL, cnt) is not None
+        # guarded by bit_length >= 2
+        guard = False
+        for sb in sorted(w.normal_blocks()):
+            st = w.term(sb)
+            if st["k"] != "switch" or len(st["targets"]) != 1:
+                continue
+            m = re.match(r"^(Gt|Ge)\(%s, K(\d+)\)$" % BL, flow.describe(w, st["d"]))
+            if m and int(m.group(2)) + (1 if m.group(1) == "Gt" else 0) == 2 and w.edge_dominates(sb, st["otherwise"], bb):
+                guard = True
+        ok_m = good_val and good_cnt and guard
+        why = "put_n_bits(%s, %s) guarded by bit_length >= 2: %s" % (val, cnt, guard)
+    rep.add("B4", "exp-writer:mantissa", ok_m, where, why)
+    r = F.body(CC + "read_exp_value")
+    where = "%s:%s" % (r.file, r.line)
+    U = r"unwrap\(get_unary_encoded\(.*?\)\)"
+    rets = {}
+    sw = [(bb, r.term(bb)) for bb in sorted(r.normal_blocks()) if r.term(bb)["k"] == "switch" and not r.term(bb).get("exp") and re.match("^(%s)$" % U, flow.describe(r, r.term(bb)["d"]))]
+    ok_r = False
+    why = "no switch on the unary value"
+    if len(sw) == 1:
+        sb, st = sw[0]
+        tg = dict((v, x) for v, x in st["targets"])
+
+        def ret_of(entry):
+            for x in sorted(r.reachable_from(entry)):
+                for s in r.stmts(x):
+                    if s.get("k") == "assign" and s["p"]["l"] == 0 and not s["p"]["p"]:
+                        return flow.describe_rvalue(r, s["r"], names=False)
+            return None
+        r0, r1, rn = ret_of(tg.get(0)) if 0 in tg else None, ret_of(tg.get(1)) if 1 in tg else None, ret_of(st["otherwise"])
+        N1 = r"Sub\((%s), K1\)(\.0)?" % U
+        M = r"(cast\()?unwrap\(get_n_bits\(.*?, %s, .*?\)\)\)?" % N1
+        T = r"Shl\(K1, %s\)" % N1
+        good_n = rn is not None and (re.match(r"^(BitOr|Add)\(%s, %s\)(\.0)?$" % (M, T), rn) or re.match(r"^(BitOr|Add)\(%s, %s\)(\.0)?$" % (T, M), rn)) is not None
+        ok_r = r0 == "K0" and r1 == "K1" and good_n
+        why = "0 -> %s, 1 -> %s, n -> %s" % (r0, r1, rn)
+    rep.add("B4", "exp-reader:value", ok_r, where, why)
+    # fixed-width values
+    wb, rb = F.body(CC + "write_bypass"), F.body(CC + "read_bypass")
+    pb = _calls(wb, lambda n, t: n.endswith("::put_bypass"))
+    I = r"next\(into_iter\(rev\(Range\{K0, (arg<u8>|\.\.\.)\}\)\)\) as Some\.0"
+    dsc = flow.describe(wb, pb[0][2]["args"][1]) if len(pb) == 1 else None
+    ok_wb = dsc is not None and (re.match(r"^Eq\(BitAnd\(Shr\(arg<u32>, %s\), K1\), K1\)$" % I, dsc) or re.match(r"^Ne\(BitAnd\(Shr\(arg<u32>, %s\), K1\), K0\)$" % I, dsc)) is not None
+    rep.add("B4", "fixed-writer:msb-first", ok_wb, "%s:%s" % (wb.file, wb.line), "put_bypass(%s)" % dsc)
+    gb = _calls(rb, lambda n, t: n.endswith("::get_bypass"))
+    nx = _calls(rb, lambda n, t: n.endswith("Iterator::next"))
+    ok_rb, why = False, "no single get_bypass in a counted loop"
+    if len(gb) == 1 and len(nx) == 1 and re.match(r"^into_iter\(Range\{K0, arg<u8>\}\)$", flow.describe(rb, nx[0][2]["args"][0])):
+        gbb = gb[0][0]
+        acc = set()
+        for x in rb.normal_blocks():
+            for s in rb.stmts(x):
+                if s.get("k") == "assign" and s["p"]["l"] == 0 and not s["p"]["p"] and s["r"]["k"] == "use" and op_place(s["r"]["op"]) is not None:
+                    acc.add(op_place(s["r"]["op"])["l"])
+        acc = sorted(acc)
+        if len(acc) == 1:
+            an = "var(%s)" % (rb.locals[acc[0]].get("name") or "_%d" % acc[0])
+            a = acc[0]
+            steps = []
+            for x in sorted(rb.normal_blocks()):
+                for s in rb.stmts(x):
+                    if s.get("k") == "assign" and s["p"]["l"] == a and not s["p"]["p"] and s["r"]["k"] in ("binop", "use"):
+                        steps.append((x, flow.describe_rvalue(rb, s["r"], names=False).replace(an, "ACC")))
+            shl = [x for x, dsc2 in steps if re.match(r"^Shl\(ACC, K1\)$", dsc2)]
+            bor = [x for x, dsc2 in steps if re.match(r"^BitOr\(ACC, (cast\()?unwrap\(get_bypass\(.*\)\)\)?\)$", dsc2)]
+            both = [x for x, dsc2 in steps if re.match(r"^BitOr\(Shl\(ACC, K1\), (cast\()?unwrap\(get_bypass\(.*\)\)\)?\)$", dsc2)]
+            init = [x for x, dsc2 in steps if dsc2 == "K0"]
+            if both and not shl and not bor:
+                ok_rb = len(init) == 1
+            elif len(shl) == 1 and len(bor) == 1:
+                # shift happens before the bit is inserted in each iteration
+                ok_rb = len(init) == 1 and (rb.dominates(shl[0], gbb) or shl[0] == gbb) and gbb in rb.reachable_from(shl[0]) and bor[0] in rb.reachable_from(gbb)
+            why = "accumulator steps %s" % [d2 for _, d2 in steps]
+    rep.add("B4", "fixed-reader:shift-then-or", ok_rb, "%s:%s" % (rb.file, rb.line), why)
 
 
 def _index_enum(U, b, op):
